@@ -15,6 +15,7 @@ type Expr interface{ String() string }
 type (
 	Ident   struct{ Name string }
 	IntLit  struct{ V *big.Int }
+	RealLit struct{ V string }
 	BoolLit struct{ V bool }
 	StrLit  struct{ V string }
 	Unary   struct {
@@ -47,6 +48,7 @@ type (
 
 func (e *Ident) String() string   { return e.Name }
 func (e *IntLit) String() string  { return e.V.String() }
+func (e *RealLit) String() string { return e.V }
 func (e *BoolLit) String() string { return fmt.Sprint(e.V) }
 func (e *StrLit) String() string  { return fmt.Sprintf("%q", e.V) }
 func (e *Unary) String() string   { return "(" + e.Op + e.X.String() + ")" }
@@ -111,6 +113,15 @@ func lexSpec(s string) ([]tok, error) {
 			j := i + 1
 			for j < len(s) && (unicode.IsDigit(rune(s[j])) || unicode.IsLetter(rune(s[j])) || s[j] == '_') {
 				j++
+			}
+			if j+1 < len(s) && s[j] == '.' && unicode.IsDigit(rune(s[j+1])) {
+				j++
+				for j < len(s) && unicode.IsDigit(rune(s[j])) {
+					j++
+				}
+				toks = append(toks, tok{"real", s[i:j]})
+				i = j
+				break
 			}
 			toks = append(toks, tok{"int", s[i:j]})
 			i = j
@@ -272,6 +283,8 @@ func (p *lexer) parsePrimary() Expr {
 			panic(parseErr("bad integer " + t.text))
 		}
 		return &IntLit{v}
+	case "real":
+		return &RealLit{t.text}
 	case "str":
 		return &StrLit{t.text}
 	case "id":
